@@ -34,3 +34,48 @@ def explodeSpec (h : Hist Int) (pred : Int → Bool) : Nat → Hist Int
         (if pred fc.1 then Ret.hist (umapH leInt (· + fc.1) (explodeSpec h pred k)) else Ret.out fc.1, fc.2))
 
 end Dyce
+
+namespace Dyce
+
+/-- what `expand(h, outcome)` answers in `H.substitute`: a replacement outcome, or (the index of) a
+histogram of a finite family to recurse into -/
+inductive SubAct where
+  | out (o : Int)
+  | hist (i : Nat)
+  deriving Repr
+
+/-- `coalesce(expanded, outcome)`: `coalesce_replace` keeps the expanded histogram, `operator.__add__`
+adds the outcome that was expanded -/
+def coalesceH (add : Bool) (f : Int) (r : Hist Int) : Hist Int := if add then umapH leInt (· + f) r else r
+
+/-- the decorated `_expand` callback of `fam[start].substitute(expand, coalesce, …)`, specialised to
+the family member `j` it is evaluating; the sentinel is the histogram `substitute` was called on -/
+def substFn (fam : List (Hist Int)) (tbl : Nat → Int → SubAct) (add : Bool) (start j : Nat) : Fn Int Int :=
+  ⟨fun ids =>
+      match ids with
+      | [f] =>
+        match tbl j f with
+        | .out o => .ret (.out o)
+        | .hist i => .call i [srcOfHist (fam.getD i [])] none fun r => .ret (.hist (coalesceH add f r))
+      | _ => .throw .typeError,
+    fam.getD start []⟩
+
+/-- `fam[start].substitute(expand, coalesce, max_depth=n)` run on the evaluator model -/
+def substEval (fuel : Nat) (fam : List (Hist Int)) (tbl : Nat → Int → SubAct) (add : Bool) (start : Nat)
+    (lim : Option Limit) (cell : Cell) : Except Err (Hist Int) × Cell :=
+  evalFn (substFn fam tbl add start) (aggregateWeighted leInt) (lowestTerms leInt) fuel start
+    [srcOfHist (fam.getD start [])] lim cell
+
+/-- **the bounded recursion** `substitute` is supposed to compute: with `k` levels left, every face of
+family member `j` is replaced by what `expand` says — an outcome, or the coalesced (recursively
+substituted) histogram; with no level left, the histogram `substitute` was called on -/
+def substSpec (fam : List (Hist Int)) (tbl : Nat → Int → SubAct) (add : Bool) (start : Nat) : Nat → Nat → Hist Int
+  | 0, _ => fam.getD start []
+  | k + 1, j =>
+    aggregateWeighted leInt
+      ((fam.getD j []).map fun fc =>
+        (match tbl j fc.1 with
+          | .out o => Ret.out o
+          | .hist i => Ret.hist (coalesceH add fc.1 (substSpec fam tbl add start k i)), fc.2))
+
+end Dyce
